@@ -9,6 +9,7 @@ import flowpaths.mingenset as mgs
 import flowpaths.utils as utils
 import flowpaths.nodeexpandeddigraph as nedg
 import copy
+import math
 
 class MinFlowDecompCycles(walkmodel.AbstractWalkModelDiGraph):
     """
@@ -303,7 +304,7 @@ class MinFlowDecompCycles(walkmodel.AbstractWalkModelDiGraph):
             numbers = all_weights, 
             total = source_flow, 
             weight_type = self.weight_type,
-            max_multiplicity=self.w_max,
+            max_multiplicity=max(1, math.ceil(self.w_max)),  # (a whole number of traversals, at least 1: float flows below 1 gave 0.75 here)
             lowerbound = current_lowerbound_k,
             remove_complement_values=True,
             remove_sums_of_two=True,
